@@ -22,6 +22,7 @@ and are covered by definitional unfolding in the `cog12_*` conjunctions.
 import EPV.Gen.Cog12D
 import EPV.Spec.Euler1D
 import EPV.Lemmas.Euler1D
+import EPV.Lemmas.HydroRobust
 import EPV.Tactics
 
 set_option linter.all false
@@ -57,8 +58,8 @@ theorem cog12_alpha_code_ne_doc :
 theorem cog12_mass_L0 (p : Cog12.P) (r t : ℝ) (hr : 0 < r) (hg : p.gamma + 1 ≠ 0) :
     massRes (Cog12.L0.density p) (Cog12.L0.velocity p) (p.geometry - 1) r t = 0 := by
   unfold massRes dr dt
-  rw [(Cog12.L0.density_hasDerivAt_t p r t).deriv, (Cog12.L0.density_hasDerivAt_r p r t hr).deriv,
-    (Cog12.L0.velocity_hasDerivAt_r p r t hr).deriv]
+  epv_hydro_rw_derivs [Cog12.L0.density_hasDerivAt_t p r t, Cog12.L0.density_hasDerivAt_r p r t,
+    Cog12.L0.velocity_hasDerivAt_r p r t]
   simp only [epv_deriv, epv_leaf]
   have hg' : 1 + p.gamma ≠ 0 := by rwa [add_comm]
   field_simp
@@ -68,8 +69,8 @@ theorem cog12_momentum_L0 (p : Cog12.P) (r t : ℝ) (hr : 0 < r) (hg : p.gamma +
     (hΓ : p.Gamma ≠ 0) (hρ : p.rho0 ≠ 0) :
     momResT (Cog12.L0.density p) (Cog12.L0.velocity p) (Cog12.L0.temperature p) p.Gamma r t = 0 := by
   unfold momResT dr dt
-  rw [(Cog12.L0.velocity_hasDerivAt_t p r t).deriv, (Cog12.L0.velocity_hasDerivAt_r p r t hr).deriv,
-    (Cog12.L0.density_hasDerivAt_r p r t hr).deriv, (Cog12.L0.temperature_hasDerivAt_r p r t hr).deriv]
+  epv_hydro_rw_derivs [Cog12.L0.velocity_hasDerivAt_t p r t, Cog12.L0.velocity_hasDerivAt_r p r t,
+    Cog12.L0.density_hasDerivAt_r p r t, Cog12.L0.temperature_hasDerivAt_r p r t]
   simp only [epv_deriv, epv_leaf]
   have h1 := Real.rpow_pos_of_pos hr (((-2 : ℝ) * (p.geometry - (1 : ℝ))) / (p.gamma + (1 : ℝ)))
   have h2 : r ^ ((2 : ℝ) * (((p.geometry - (1 : ℝ)) * ((1 : ℝ) - p.gamma)) / ((1 : ℝ) + p.gamma)))
@@ -85,8 +86,8 @@ theorem cog12_energy_hydro_L0 (p : Cog12.P) (r t : ℝ) (hr : 0 < r) (hg : p.gam
     (hΓ : p.Gamma ≠ 0) (hγ : p.gamma - 1 ≠ 0) :
     energyHydroT (Cog12.L0.velocity p) (Cog12.L0.temperature p) p.Gamma p.gamma (p.geometry - 1) r t = 0 := by
   unfold energyHydroT dr dt
-  rw [(Cog12.L0.temperature_hasDerivAt_t p r t).deriv, (Cog12.L0.velocity_hasDerivAt_r p r t hr).deriv,
-    (Cog12.L0.temperature_hasDerivAt_r p r t hr).deriv]
+  epv_hydro_rw_derivs [Cog12.L0.temperature_hasDerivAt_t p r t, Cog12.L0.velocity_hasDerivAt_r p r t,
+    Cog12.L0.temperature_hasDerivAt_r p r t]
   simp only [epv_deriv, epv_leaf]
   have hg' : 1 + p.gamma ≠ 0 := by rwa [add_comm]
   field_simp
